@@ -478,3 +478,92 @@ func TestVerifC12(t *testing.T) {
 
 var _ = sort.Strings
 var _ = time.Second
+
+// c12FixedCase: regression cases of repaired findings.
+func c12FixedCase(name string) (string, any) {
+	switch name {
+	case "F-C12-duplicate-stream-after-crash-queue":
+		base, err := os.MkdirTemp("", "c12f-")
+		if err != nil {
+			return "setup: " + err.Error(), nil
+		}
+		defer os.RemoveAll(base)
+		d, err := veMakeDirs(filepath.Join(base, "e0"))
+		if err != nil {
+			return "setup: " + err.Error(), nil
+		}
+		tr := &veTraffic{Base: time.Date(2024, 1, 2, 13, 0, 0, 0, time.UTC)}
+		tr.Flows = []veFlow{{"10.0.0.1", "10.0.0.2", 1000, 80}, {"10.0.0.3", "10.0.0.2", 1001, 80}, {"10.0.0.3", "10.0.0.2", 1002, 443}}
+		s := time.Second
+		tr.Packets = []vePacket{{0, 0, 9 * s, "aabb"}, {1, 0, 10 * s, "cc"}, {2, 0, 11 * s, "cc"}, {0, 1, 20 * s, "aa"}, {2, 0, 29 * s, ""}, {1, 0, 38 * s, ""}, {2, 1, 38*s + 60*time.Millisecond, "bb"}, {2, 0, 42*s + 60*time.Millisecond, "aabb"}}
+		tr.Cuts = []int{0, 2, 4, 6, 7, 8}
+		hist := []string{}
+		e, err := veStart(d, false)
+		if err != nil {
+			return "setup: " + err.Error(), nil
+		}
+		imp := func(e *veEngine, d veDirs, caps ...int) error {
+			var names []string
+			for _, c := range caps {
+				delete(tr.Written, c)
+				n, err := tr.writeCapture(d, c)
+				if err != nil {
+					return err
+				}
+				names = append(names, n)
+			}
+			hist = append(hist, fmt.Sprintf("import %v", names))
+			e.mgr.ImportPcaps(names)
+			return e.sync()
+		}
+		if err := imp(e, d, 0, 4); err != nil {
+			e.close()
+			return err.Error(), hist
+		}
+		if err := imp(e, d, 3, 1); err != nil {
+			e.close()
+			return err.Error(), hist
+		}
+		d2, _ := veMakeDirs(filepath.Join(base, "e1"))
+		if err := copyTree(d.base, d2.base); err != nil {
+			e.close()
+			return "setup: " + err.Error(), hist
+		}
+		hist = append(hist, "crash (import of c0,c4 parked, c3,c1 queued)")
+		e.close()
+		if e, err = veStart(d2, false); err != nil {
+			return "restart failed: " + err.Error(), hist
+		}
+		defer e.close()
+		if err := e.sync(); err != nil {
+			return err.Error(), hist
+		}
+		if err := imp(e, d2, 2); err != nil {
+			return err.Error(), hist
+		}
+		if _, err := e.settle(100, nil); err != nil {
+			return err.Error(), hist
+		}
+		hist = append(hist, "settle")
+		v := e.mgr.GetView()
+		seen := map[string]uint64{}
+		msg := ""
+		_ = v.AllStreams(context.Background(), func(sc StreamContext) error {
+			st := sc.Stream()
+			key, _ := c12Canon(fmt.Sprintf("%s:%d>%s:%d", st.ClientHostIP(), st.ClientPort, st.ServerHostIP(), st.ServerPort), "")
+			if other, dup := seen[key]; dup {
+				msg = fmt.Sprintf("connection %s is visible twice (streams %d and %d)", key, other, st.ID())
+			}
+			seen[key] = st.ID()
+			return nil
+		})
+		v.Release()
+		_ = e.inLoop(func() {})
+		return msg, hist
+	}
+	return "unknown fixed case", name
+}
+
+func TestVerifC12Fixed(t *testing.T) {
+	vlib.Fixed(t, "C12", []string{"F-C12-duplicate-stream-after-crash-queue"}, c12FixedCase)
+}
